@@ -22,19 +22,53 @@ import (
 // ---------------------------------------------------------------------------------------------------------
 
 // c19Group builds the K traces of group k. Some worlds register the same Go types as world 0 in another order.
-func c19Group(seed uint64, k int, thorough bool) []*Trace {
+func c19Group(seed uint64, k int, thorough bool) []*Trace { return c19GroupX(seed, k, thorough, false) }
+
+// c19GroupX: with race set (the groups that run on real goroutines under the race detector) the worlds are short and
+// small - the detector slows everything down tenfold and what it looks for is shared state, which shows at once - and
+// half of the groups have a component of several kilobytes in every world.
+func c19GroupX(seed uint64, k int, thorough, race bool) []*Trace {
 	gs := Mix(seed, uint64(k))
 	r := NewRng(gs, 77)
 	K := 2 + r.Intn(5)
+	// in one group out of five every world has one component of several kilobytes (whatever the library keeps per
+	// process for large components is then touched by all of them)
+	groupHuge := r.Intn(5) == 0
+	if race {
+		groupHuge = r.Intn(2) == 0
+	}
 	var trs []*Trace
 	for j := 0; j < K; j++ {
 		tr := GenTrace("C19", Mix(gs, uint64(j+1)), thorough)
+		if groupHuge && tr.Plan.Wide == "" {
+			for i := range tr.Plan.Types {
+				if kd := tr.Plan.Types[i].Kind; kd == "bytes" || kd == "rel" {
+					tr.Plan.Types[i].Size = []int{4097, 5000, 9000, 16385, 70000}[r.Intn(5)]
+					tr.Plan.HugeComp = true
+					if tr.Plan.EntityCap > 40 {
+						tr.Plan.EntityCap = 10 + r.Intn(30)
+					}
+					if tr.Plan.CapInc > 8 {
+						tr.Plan.CapInc = 1 + r.Intn(8)
+					}
+					break
+				}
+			}
+		}
 		if thorough {
 			if len(tr.Steps) > 200 {
 				tr.Steps = tr.Steps[:200]
 			}
 		}
 		tr.Plan.GCPermille = 0
+		if race {
+			if len(tr.Steps) > 90 {
+				tr.Steps = tr.Steps[:90]
+			}
+			if tr.Plan.EntityCap > 400 {
+				tr.Plan.EntityCap = 200 + r.Intn(200)
+			}
+		}
 		for i := range tr.Plan.Types {
 			tr.Plan.Types[i].UID = 1000*(j+1) + i + 1
 		}
@@ -320,7 +354,7 @@ func c19Race(args []string) int {
 		if *deadline > 0 && time.Now().Unix() >= *deadline {
 			break
 		}
-		group(c19Group(*seed, k, false))
+		group(c19GroupX(*seed, k, false, true))
 		groups++
 	}
 	fmt.Printf("G %d\n", groups)
@@ -362,7 +396,7 @@ func specialC19(args []string) int {
 		}
 	}
 	if *raceRuns == 0 {
-		*raceRuns = 240
+		*raceRuns = 900
 		if thorough {
 			*raceRuns = 20000
 		}
@@ -639,7 +673,11 @@ func specialC14(args []string) int {
 			defer wg.Done()
 			sd := Mix(*seed, uint64(1000+i))
 			res[i] = outcome{Seed: sd}
-			cmd := exec.CommandContext(watchdogCtx(*seconds+60), *bin, "-seed", fmt.Sprint(sd), "-seconds", fmt.Sprint(*seconds))
+			gargs := []string{"-seed", fmt.Sprint(sd), "-seconds", fmt.Sprint(*seconds)}
+			if i%2 == 1 {
+				gargs = append(gargs, "-wide")
+			}
+			cmd := exec.CommandContext(watchdogCtx(*seconds+60), *bin, gargs...)
 			cmd.Env = append(os.Environ(), "GOMAXPROCS=4")
 			out, err := cmd.CombinedOutput()
 			text := string(out)
